@@ -14,4 +14,6 @@ CASES = [
     dict(expect="fire", desc="oern: next source also started per element", names="Q1-who-advances", edits=[dict(file=OE,
          old="                observer.on_next, on_resume, on_resume, scheduler=scheduler", new="                lambda x: (observer.on_next(x), on_resume()), on_resume, on_resume, scheduler=scheduler")]),
     dict(expect="silent", desc="concat: action renamed", edits=[dict(file=CC, old="action", new="step", count=None)]),
+    dict(expect="fire", desc="seed C10-r2/3: retry(0) treated as unbounded (truthiness of the count)", names="Q3-delegations", edits=[dict(file="reactivex/operators/_retry.py",
+         old="        if retry_count is None:\n            gen = infinite()\n        else:\n            gen = range(retry_count)", new="        gen = range(retry_count) if retry_count else infinite()")]),
 ]
